@@ -40,6 +40,10 @@ CLAIMED = {
     text="Theorems (Props/C17.v): what a data byte selects is independent of End marks (`end` never matches data); in machines carrying the computed certificate end_safe, end-of-input never selects a consuming data transition (wildcards and inverted sets never match end-of-input); end() with nothing to do returns DONE iff the state is accepting, FAIL otherwise; end() after a failure returns FAIL. Every compiled machine is certified; with -feof-support the end-of-input move of EVERY state of the gcc-built parser is compared with the model under several data contexts, plus runs that finish with end() (also after truncated inputs).",
     note="That the machine is the right one for the program's `end` patterns belongs to C01's reference semantics; C17 decides End/data separation and the contract of the emitted end(). Sampled programs; exhaustive over states for the end move.",
     ref="5 C17"),
+ "C19": dict(cat="proof", tech="Coq proofs over a hand model of flag resolution applied to the regenerated flag tables + exhaustive correspondence with load_commandline_flags",
+    text="coq/Gen/GFlags.v (flag table, level table, names) is regenerated from the current nmfu module on every run; over it Props/C19.v proves: order independence of resolution for override lists without duplicates (a real inductive proof, for any table satisfying the computed side condition meta_ok), implied flags on, exclusive flags never both on, explicit conflicts are errors, levels cumulative, overrides beat the level (finite facts by reflection over all 3^11 x 4 assignments, lifted to every order through the order theorem), and the tokeniser theorems (unknown flags/options, missing values, malformed -O / --flag values / dump targets are errors; run_cmdline never crashes). The hand model is compared with the real load_commandline_flags exhaustively on the 708 588 assignments (extracted OCaml) and on sampled permutations and malformed command lines (inside Coq).",
+    note="Trusted: translator/tables2coq.py, the hand model's tie (exhaustive on the finite domain, sampled beyond), extraction for the exhaustive comparison (a sample re-evaluated by the kernel). Accepted spellings such as -O02 or --O 2 are recorded, not judged.",
+    ref="5 C19"),
  "C15": dict(cat="proof", tech="Coq proof over translator-regenerated model (pylite2coq) + CPython correspondence",
     text="Universal theorems (all strings, all digit strings, all 256 bytes) about the CURRENT bodies of _convert_string, _convert_char_const, _convert_int, _create_casei_from and _escape_string, which a fail-closed translator regenerates from /repo/nmfu.py into Gallina on every run; the translated reading is compared with CPython on ~2 700 enumerated inputs per run. A broken proof triggers a search (spec evaluated against the regenerated functions inside Coq, then Python/gcc replay) for a concrete literal.",
     note="Trusted: Coq kernel (vm_compute), translator/pylite2coq.py, Base/PyLite.v's reading of Python, Lit/LitSpec.v (spelling relation, C string-literal lexer). _convert_binary_string is tied by correspondence only; lark tokenisation and gcc are modelled, not verified.",
